@@ -15,12 +15,13 @@ MODULE = "DaliVerif.Props.C02"
 EXES = ["m_cmd"]
 GEN = True
 # tie by translation (DESIGN.md II.8): the frame-assembling constructors of 276 command classes and dali/address.py
-TIE_MODULES = ["DaliVerif.Tie.Command", "DaliVerif.Tie.Address", "DaliVerif.Tie.Event"]
+TIE_MODULES = ["DaliVerif.Tie.Command", "DaliVerif.Tie.Address", "DaliVerif.Tie.Event", "DaliVerif.Tie.Special"]
 TIE_THEOREMS = ["Tie.Command.%s" % n for n in
                 ("stdNoParam_tie", "stdParam_tie", "dapc_tie", "devStd_tie", "devInst_tie",
                  "std_rows_traced", "dev_rows_traced", "inst_rows_traced")] + \
                ["Tie.Event.%s_%s_tie" % (f, sc) for f in ("ev", "evLight", "evOcc")
-                for sc in ("device", "deviceInstance", "deviceGroup", "instanceGroup", "inst")]
+                for sc in ("device", "deviceInstance", "deviceGroup", "instanceGroup", "inst")] + \
+               ["Tie.Special.specialParam_tie", "Tie.Special.specialNoParam_tie", "Tie.Special.special_rows_traced"]
 THEOREMS = ["tables_ok2", "decode_construct", "decode_construct_gen", "render_preserved", "no_shared_frame",
             "std_param_rejected", "std_arity_rejected", "destination_rejected", "wrong_kind_rejected",
             "byte_param_rejected", "slice_write_rejects", "std_accepted_is_legal", "dapc_accepted_is_legal",
